@@ -5,6 +5,7 @@ import (
 	"strings"
 	"sync"
 
+	"verif/harness/lab/chainlab"
 	"verif/harness/lab/kvlab"
 	"verif/harness/mon"
 )
@@ -78,7 +79,7 @@ func runC17(r *mon.Run, replay string) {
 	}
 	var wg sync.WaitGroup
 	sem := make(chan struct{}, 16)
-	var boltMu sync.Mutex // bolt scratch naming is not concurrency safe
+	boltMu := &c17BoltMu // bolt scratch naming is not concurrency safe
 	for _, jb := range jobs {
 		wg.Add(1)
 		sem <- struct{}{}
@@ -205,8 +206,92 @@ func runC17(r *mon.Run, replay string) {
 		}
 	}
 	wg.Wait()
+	parallel(r.Pick(24, 300), func(i int) { runC17Chain(r, uint64(170000+i)) })
+	r.Floor("chain_bucket_iterations_compared", 100)
 	r.Sample(c17Case{"MemDB", []kvlab.Op{alpha[0], alpha[1], alpha[5], alpha[7], alpha[3], alpha[8]}})
 	for _, be := range kvlab.Backends(true) {
 		r.Floor("exhaustive_sequences:"+be.Name, 500)
 	}
 }
+
+// runC17Chain replays one generated chain history on every backend: the chain
+// store must behave the same whichever backend it is given (equal served
+// views), and each backend's own iteration must agree with the shadow model of
+// what the store wrote.
+func runC17Chain(r *mon.Run, stream uint64) {
+	rng := r.RNG(stream)
+	regime := regimes[rng.IntN(3)]
+	p := chainlab.RandomParams(regime, rng)
+	env := chainlab.NewEnv(p)
+	t := chainlab.NewTree(env, rng)
+	t.Grow(24+rng.IntN(8), chainlab.Profile{MaxTxns: 4})
+	sched := t.RandomSchedule(rng)
+	var ref chainlab.View
+	var refName string
+	for _, be := range kvlab.Backends(true) {
+		isBolt := strings.Contains(be.Name, "Bolt")
+		if isBolt {
+			c17BoltMu.Lock()
+		}
+		func() {
+			if isBolt {
+				defer c17BoltMu.Unlock()
+			}
+			db, _, closeFn := be.New()
+			defer closeFn()
+			node, err := chainlab.NewTestNode(env, db)
+			if err != nil {
+				r.Violation("chain-on-backend:open:"+be.Name, "NewDBStore failed on backend: "+err.Error(), c17Case{Backend: be.Name}, nil)
+				return
+			}
+			a := chainlab.NewAuditor(t, node)
+			for _, batch := range sched {
+				if _, fs := a.Submit(batch); len(fs) > 0 {
+					for _, f := range fs {
+						r.Violation("chain-on-backend:"+be.Name+":"+f.Sig, "chain history on backend "+be.Name+": "+f.What, map[string]any{"rng_stream": stream, "params": p, "backend": be.Name}, f.Detail)
+					}
+					return
+				}
+			}
+			// the backend's own iteration vs what the store wrote
+			for bn, want := range node.Shadow.Model.Live {
+				b := db.Bucket([]byte(bn))
+				if b == nil {
+					r.Violation("chain-on-backend:bucket-missing:"+be.Name, "bucket "+bn+" missing on backend", map[string]any{"rng_stream": stream, "backend": be.Name}, nil)
+					return
+				}
+				got := map[string]string{}
+				dup := false
+				for k, v := range b.Iter() {
+					if _, ok := got[string(k)]; ok {
+						dup = true
+					}
+					got[string(k)] = string(v)
+				}
+				if dup || len(got) != len(want) {
+					r.Violation("chain-on-backend:iter:"+be.Name, fmt.Sprintf("bucket %s: backend iterates %d keys (duplicates: %v), the store wrote %d", bn, len(got), dup, len(want)), map[string]any{"rng_stream": stream, "backend": be.Name}, nil)
+					return
+				}
+				for k, v := range want {
+					if got[k] != v {
+						r.Violation("chain-on-backend:iter:"+be.Name, "bucket "+bn+": iterated value differs from what the store wrote", map[string]any{"rng_stream": stream, "backend": be.Name}, nil)
+						return
+					}
+				}
+				r.Count("chain_bucket_iterations_compared", 1)
+			}
+			v := node.ServedView(true)
+			if ref == nil {
+				ref, refName = v, be.Name
+			} else if k, x, y := ref.Diff(v); k != "" {
+				r.Violation("chain-on-backend:view-differs:"+be.Name, "the chain store serves a different view on "+be.Name+" than on "+refName, map[string]any{"rng_stream": stream, "params": p}, map[string]string{"key": k, refName: clipS(x), be.Name: clipS(y)})
+				return
+			}
+			r.Count("chain_histories:"+be.Name, 1)
+		}()
+	}
+	r.Eval()
+	r.Distinct(fmt.Sprintf("chain/%d", stream))
+}
+
+var c17BoltMu sync.Mutex
